@@ -433,6 +433,68 @@ def witness_cover(E, con):
     return "sat" if r is True else "witness-does-not-satisfy-requires(%s)" % r
 
 
+_DECORATORS_UNDERSTOOD = ("property", "staticmethod", "classmethod", "abc.abstractmethod", "abstractmethod", "overload", "contextmanager", "singledispatch", "stepwise",
+                          "service(", "functools.wraps(", "wraps(", "exclusive(", "plugin_constraints(", "constraints(", "yaml_tag(", "control.add(")
+
+
+def _is_cache_decorator(d):
+    base = d.split("(")[0]
+    return base in ("lru_cache", "functools.lru_cache", "cache", "functools.cache")
+
+
+def _decorator_understood(d):
+    """decorators whose effect the engine / the sidecars model (the ones the pinned tree uses), property setters, and the memoising
+    decorators of functools, which are handled through their side condition (cache_side_condition)"""
+    if _is_cache_decorator(d) or d.endswith(".setter") or d.endswith(".getter") or d.endswith(".register") or ".register(" in d:
+        return True
+    return any(d == k or (k.endswith("(") and d.startswith(k)) for k in _DECORATORS_UNDERSTOOD)
+
+
+def cache_side_condition(E, con, fi, res):
+    """functools.lru_cache / cache (assumed contract): calls whose arguments compare EQUAL share one cache entry (typed=False), so the
+    wrapped function may only be memoised if equal arguments give IDENTICAL results.  Obligation: for two argument lists that are
+    pairwise == (Python equality: True == 1 == 1.0), the body returns the same value."""
+    from .values import SV
+    from .engine import fresh_val
+
+    if any("typed=True" in d for d in fi.decorators if _is_cache_decorator(d)):
+        return []
+    pending, out, npaths = [[]], [], 0
+    while pending and npaths < 64:
+        prefix = pending.pop()
+        npaths += 1
+        ctx = Ctx(E, prefix, "cache%d" % npaths, top_contract=con)
+        I = Interp(ctx)
+        try:
+            a = symbolic_params(ctx, con, fi)
+            b = {}
+            for name, v in a.items():
+                if not isinstance(v, SV):
+                    raise Unsupported("lru_cache side condition: parameter %s is not a plain value" % name)
+                b[name] = ctx.typed(fresh_val("q_" + name), v.ty)
+                eq = I.equal(v, b[name])
+                ctx.assume(z3.BoolVal(eq) if isinstance(eq, bool) else eq)
+            old = ctx.snapshot()
+            pre = Spec(ctx, old, old)
+            _attach_trace(pre, ctx, ctx.trlen)
+            for bound in (a, b):
+                for lab, f in eval_clause(con.requires, pre, views_of(pre, bound, old)).items():
+                    ctx.assume(f)
+            ra = run_body(I, fi, dict(a), [], fi.cls)
+            rb = run_body(I, fi, dict(b), [], fi.cls)
+            ta, tb = ctx.to_val(ra).t, ctx.to_val(rb).t
+            ctx.oblige("%s/lru_cache[equal-arguments-give-identical-results]" % short(con.key), ta == tb, kind="pre")
+        except PathEnd:
+            pass
+        except PyRaise:
+            pass            # a raising call is not cached
+        except Unsupported as u:
+            res.unsupported.append(("cache%d" % npaths, str(u)))
+        out.extend(ctx.obligations)
+        pending.extend(ctx.alternatives)
+    return out
+
+
 def verify_contract(E, con, thorough=False):
     res = FunctionResult(con.key)
     t0 = time.time()
@@ -447,7 +509,14 @@ def verify_contract(E, con, thorough=False):
         res.missing = True
         return res, []
     res.sha, res.span, res.file = fi.sha(), fi.span(), fi.module.path
+    unknown_deco = [d for d in fi.decorators if not _decorator_understood(d)]
+    if unknown_deco:
+        # the function that runs is `decorator(body)`, not the body: without an assumed contract for the decorator nothing is decided
+        res.unsupported.append(("*", "function is wrapped by decorator(s) without an assumed contract: %s" % ", ".join(unknown_deco)))
+        return res, []
     obs = explore(E, con, fi, res)
+    if any(_is_cache_decorator(d) for d in fi.decorators):
+        obs.extend(cache_side_condition(E, con, fi, res))
     # vacuity: the precondition must be satisfiable
     ctx = Ctx(E, [], "cover")
     try:
@@ -589,7 +658,7 @@ def _compare(E, ctx, I, m, conc, out, kind, value, tr_old, con):
             nm = getattr(k, "name", None) or getattr(k, "dotted", "").split(".")[-1]
             if nm != type(out["exception"]).__name__:
                 return "exception class: symbolic %s, CPython %s" % (nm, type(out["exception"]).__name__)
-    for oid, o in conc.objs.items():
+    for oid, o in list(conc.objs.items()):
         ty = conc.types.get(oid)
         if not isinstance(ty, (TObj, TAbs)) or getattr(ty, "observe", None) is not None:
             continue  # ghost fields of real library objects are only meaningful where the library defines them
